@@ -217,7 +217,7 @@ def main(tier, replay_path=None):
         # 1. design level: model check the protocol the code was observed to use (small block counts)
         for name, procs, mclk, mver, msw, crash, hist, starts in cfg["mc"]:
             r = C.tlc("IndexCache", cfg_text(procs, 2, 2, mclk, mver, proto, msw, crash, hist, starts), run.dir, name=f"MC_{name}",
-                      timeout=1500)
+                      timeout=3600)
             mcs.append({"config": name, "protocol": proto, "states": r["distinct"], "generated": r["generated"],
                         "design_holds": bool(r["completed"] and not r["violated"]), "violated": r["violated"], "wall_s": r["wall_s"]})
             if not r["completed"] and not r["violated"]:
@@ -226,7 +226,7 @@ def main(tier, replay_path=None):
         rng = random.Random(C.seed())
         for name, procs, mclk, mver, msw, crash, hist, starts in cfg["export"]:
             r = C.tlc_ok(C.tlc("IndexCache", cfg_text(procs, nbf, nba, mclk, mver, proto, msw, crash, hist, starts, props=False, emit=True, ciw=cfg["ciw"]),
-                               run.dir, name=f"export_{name}", workers=1, timeout=1500), "behaviour export " + name)
+                               run.dir, name=f"export_{name}", workers=1, timeout=3600), "behaviour export " + name)
             em = [h for h in C.emitted(r["out"]) if isinstance(h, dict) and h.get("h")]
             seen = set()
             risky, rest = [], []
